@@ -674,6 +674,14 @@ def _val_py(v):
     return v[1]
 
 
+# `...var` spreads: Python's `*` takes any iterable and `**` any mapping, not just list / dict
+import collections as _c
+import types as _t
+
+_LIST_CONTAINERS = {"var:tuple": tuple, "var:deque": _c.deque, "var:keys": lambda vals: {i: v for i, v in enumerate(vals)}.values()}
+_DICT_CONTAINERS = {"var:proxy": _t.MappingProxyType, "var:chain": lambda d: _c.ChainMap({}, d), "var:userdict": _c.UserDict, "var:odict": _c.OrderedDict}
+
+
 def flatten_items(items):
     """-> (flat list of (key|None, python value), template argument text, context dict)"""
     flat, parts, ctx = [], [], {}
@@ -698,18 +706,18 @@ def flatten_items(items):
         elif t == "lsp":
             vals = [_val_py(v) for v in it[2]]
             flat.extend((None, v) for v in vals)
-            if it[1] == "var":
+            if it[1].startswith("var"):
                 name = "v%d" % len(ctx)
-                ctx[name] = vals
+                ctx[name] = _LIST_CONTAINERS.get(it[1], list)(vals)
                 parts.append("..." + name)
             else:
                 parts.append("...[%s]" % ", ".join(ref(v) for v in it[2]))
         elif t == "dsp":
             pairs = [(k, _val_py(v)) for k, v in it[2]]
             flat.extend(pairs)
-            if it[1] == "var":
+            if it[1].startswith("var"):
                 name = "v%d" % len(ctx)
-                ctx[name] = dict(pairs)
+                ctx[name] = _DICT_CONTAINERS.get(it[1], dict)(dict(pairs))
                 parts.append("..." + name)
             else:
                 parts.append("...{%s}" % ", ".join('"%s": %s' % (k, ref(v)) for k, v in it[2]))
@@ -806,7 +814,7 @@ def e2e_strategy(n_max, focus):
         st.sampled_from(["x", "ab", "", "q r"]).map(lambda s: ["s", s]),
         st.sampled_from([0, 7, "x", "hello", None, True, False, [1, "x"], {"k": 1}]).map(lambda v: ["v", v]),
     )
-    forms = st.sampled_from(["var", "lit"])
+    forms = st.sampled_from(["var", "lit", "var", "lit", "var", "lit", "var:tuple", "var:deque", "var:keys", "var:proxy", "var:chain", "var:userdict", "var:odict"])
     extra_keys = [UNKNOWN, "yy", NONIDENT, PYKW, "@on", "zz:q", "yy:r", ":x", "my key", ""]
 
     def package(draw, flat):
@@ -1029,7 +1037,7 @@ def run_shard(spec):
             nt = info["nontrivial"]
             sample = None
             if spec.get("sample") and nt and exp.accept and not col.nt_samples and len(case["items"]) >= 3 and "e2e_has_spread" in labels:
-                sample = {"decl": probe_for(case["sig"]).decl, "template": info["src"], "context": flatten_items(case["items"])[2], "style": case["style"], "path": case["path"]}
+                sample = {"decl": probe_for(case["sig"]).decl, "template": info["src"], "context": {k_: (v_ if type(v_) in (int, str, bool, list, dict, type(None)) else repr(v_)) for k_, v_ in flatten_items(case["items"])[2].items()}, "style": case["style"], "path": case["path"]}
             col.case(case if nt else None, nt, sample=sample, labels=labels)
             return fails
 
